@@ -151,7 +151,7 @@ Step mk(int task, const std::string &op, std::vector<long> a = {})
     return s;
 }
 
-Graph graphFor(long graphSeed, long maxFiles, long avoid)
+Graph graphFor(long graphSeed, long maxFiles, long avoid, long heavy = 0)
 {
     if (graphSeed < 0) {
         return enumeratedGraph(-graphSeed - 1); // the enumerated family of small graphs
@@ -159,7 +159,8 @@ Graph graphFor(long graphSeed, long maxFiles, long avoid)
     Rng rng(mixSeed(uint64_t(graphSeed), "import-graph", 0));
     GraphParams gp;
     gp.maxFiles = maxFiles;
-    gp.avoidIndirectUnits = avoid != 0;
+    gp.avoidIndirectUnits = avoid != 0 && heavy == 0;
+    gp.unitsHeavy = heavy != 0;
     return generateGraph(rng, gp);
 }
 
@@ -185,10 +186,12 @@ Plan generate(Rng &rng, const Opts &opts, uint64_t runIndex)
             avoid = 0;
             p.cfg["enum"] = 1;
         }
+        long heavy = graphSeed >= 0 ? opts.f("uheavy", graphSeed % 4 == 0 ? 1 : 0) : 0;
         p.cfg["graphseed"] = graphSeed;
         p.cfg["avoid"] = avoid;
+        p.cfg["uheavy"] = heavy;
         p.cfg["sweep"] = 1;
-        Graph g = graphFor(graphSeed, maxFiles, avoid);
+        Graph g = graphFor(graphSeed, maxFiles, avoid, heavy);
         auto faults = singleFaults(g);
         long strict = long(gr.below(2));
         // keep = 1: the client keeps working on the model object it parsed at the start (it is not parsed again after
@@ -246,9 +249,11 @@ Plan generate(Rng &rng, const Opts &opts, uint64_t runIndex)
     // seeded multi-fault runs
     long graphSeed = long(rng.below(1u << 30));
     long avoid = opts.f("avoid", long(rng.below(2)));
+    long heavy = opts.f("uheavy", graphSeed % 4 == 0 ? 1 : 0);
     p.cfg["graphseed"] = graphSeed;
     p.cfg["avoid"] = avoid;
-    Graph g = graphFor(graphSeed, maxFiles, avoid);
+    p.cfg["uheavy"] = heavy;
+    Graph g = graphFor(graphSeed, maxFiles, avoid, heavy);
     auto faults = singleFaults(g);
     p.cfg["cwd"] = opts.f("cwd", long(rng.below(4)));
     long nClients = opts.f("clients", rng.chance(1, 3) ? 2 : 1);
@@ -930,7 +935,7 @@ void execute(const Plan &plan, Ctx &ctx)
     libcellml::verif::openFile = seamOpen;
     static const char *const cwds[] = {"/w/", "/w/a/", "/w/b/", "/w/a/x/"};
     w.vfs.cwd = cwds[((plan.c("cwd", 0) % 4) + 4) % 4];
-    w.install(graphFor(plan.c("graphseed", 1), plan.c("maxfiles", 5), plan.c("avoid", 0)));
+    w.install(graphFor(plan.c("graphseed", 1), plan.c("maxfiles", 5), plan.c("avoid", 0), plan.c("uheavy", 0)));
     if (ctx.trace) {
         for (auto &f : w.pristine.files) {
             fprintf(stderr, "---- %s:\n%s\n", f.path.c_str(), w.vfs.at(f.path)->text.c_str());
